@@ -224,10 +224,19 @@ class LockEngine:
             p = i["ptr"]
             if p.get("k") == "inst" and p["id"] in self.tracked(fn):
                 return facts.get(p["id"])
+            if p.get("k") == "inst":
+                # a mode parameter (`t_mutex_mode mode` instead of `bool lock`) that is never reassigned: the constant bound in this context
+                k_ = self._const_param_cell(fn, p["id"])
+                if k_ is not None and k_ < len(args) and args[k_] is not None and args[k_][0] == "c":
+                    return args[k_][1]
             return None
         if i.op == "icmp":
             a = self.ev(fn, i["a"], facts, args, depth + 1)
             b = self.ev(fn, i["b"], facts, args, depth + 1)
+            if (a is None or b is None) and i["pred"] in ("eq", "ne"):
+                mk = self._mode_test(fn, i)
+                if mk is not None and mk in facts:
+                    return facts[mk] if i["pred"] == "eq" else 1 - facts[mk]
             if a is None or b is None:
                 return None
             if i["pred"] == "eq":
@@ -241,6 +250,55 @@ class LockEngine:
             if a is None or b is None:
                 return None
             return a ^ b
+        return None
+
+    def _const_param_cell(self, fn, aid):
+        cache = self.__dict__.setdefault("_cpc", {})
+        key = (fn.name, aid)
+        if key not in cache:
+            al = fn.insts[aid]
+            k_ = None
+            if al.op == "alloca" and str(al.get("aty", "")).startswith("i"):
+                k_ = fn.param_index_of_alloca(al)
+                if k_ is not None:
+                    uses_ok = True
+                    nst = 0
+                    for i in fn.all_insts():
+                        for kk, o in operands(i):
+                            if o.get("k") == "inst" and o["id"] == aid:
+                                if i.op == "store" and kk == "ptr":
+                                    nst += 1
+                                elif not (i.op == "load" and kk == "ptr"):
+                                    uses_ok = False
+                    if not uses_ok or nst != 1:
+                        k_ = None
+            cache[key] = k_
+        return cache[key]
+
+    def _mode_param(self, fn, k):
+        for a in fn.allocas().values():
+            if self._const_param_cell(fn, a.id) == k:
+                return any(i.op == "icmp" and i["pred"] in ("eq", "ne") and self._mode_test(fn, i) is not None and
+                           -self._mode_test(fn, i) // 4096 == a.id for i in fn.all_insts())
+        return False
+
+    def _mode_test(self, fn, icmp):
+        """`mode == K` / `mode != K` over a never-reassigned integer parameter: a key under which the outcome `mode == K` is remembered along a path
+        (so that `if (mode == ACQUIRE) lock ... if (mode == ACQUIRE) unlock` stays correlated when the argument is not known)"""
+        b = icmp["b"]
+        if b.get("k") != "const":
+            return None
+        a = icmp["a"]
+        for _ in range(3):
+            if a.get("k") != "inst":
+                return None
+            x = fn.insts[a["id"]]
+            if x.op in ("zext", "sext", "trunc"):
+                a = x["a"]
+                continue
+            if x.op == "load" and x["ptr"].get("k") == "inst" and self._const_param_cell(fn, x["ptr"]["id"]) is not None:
+                return -(x["ptr"]["id"] * 4096 + (b["v"] & 0xfff) + 1)
+            return None
         return None
 
     def root_cell(self, fn, o, depth=0):
@@ -261,6 +319,9 @@ class LockEngine:
                 r = self.root_cell(fn, a, depth + 1)
                 if r:
                     return (r[0], r[1] if i["pred"] == "ne" else 1 - r[1])
+            mk = self._mode_test(fn, i)
+            if mk is not None:
+                return (mk, 1 if i["pred"] == "eq" else 0)
             return None
         if i.op == "xor":
             b = i["b"]
@@ -284,7 +345,7 @@ class LockEngine:
             v = self.ev(fn, a, facts, args)
             if v is not None and a.get("k") != "const":
                 out.append(("c", v))
-            elif a.get("k") == "const" and a.get("w", 64) <= 8:
+            elif a.get("k") == "const" and (a.get("w", 64) <= 8 or (a.get("w", 64) <= 32 and 0 <= a["v"] <= 3)):
                 out.append(("c", a["v"]))
             else:
                 out.append(None)
@@ -307,6 +368,8 @@ class LockEngine:
                 norm.append(a)
             elif fn.params[k]["type"] == "i1":
                 norm.append(("c", a[1] & 1))
+            elif a[0] == "c" and fn.params[k]["type"] == "i32" and 0 <= a[1] <= 3 and self._mode_param(fn, k):
+                norm.append(a)          # a small mode constant for a parameter the function compares with constants
             else:
                 norm.append(None)
         args = tuple(norm)
